@@ -2,7 +2,7 @@
    configurations of Ser/Cfg.v, and the computed witnesses of the refuted
    statements. *)
 From Coq Require Import Lia ZifyBool.
-From FendV Require Import Base.Prelude Ser.Generated.BuiltinNames Ser.Codec Ser.Cfg Ser.CodecRT Ser.CodecSafe Ser.NamesProofs.
+From FendV Require Import Base.Prelude Ser.Generated.BuiltinNames Ser.Codec Ser.Cfg Ser.CodecRT Ser.CodecSafe Ser.NamesProofs Ser.CodecLoaded.
 Open Scope N_scope.
 Arguments N.add : simpl never. Arguments N.sub : simpl never. Arguments N.mul : simpl never.
 Arguments N.eqb : simpl never. Arguments N.ltb : simpl never. Arguments N.leb : simpl never.
@@ -179,3 +179,25 @@ Lemma x64_cap_ok : prealloc_cap * max_sz sizes_x64 <= isize_max.
 Proof. vm_compute. discriminate. Qed.
 Lemma x64_sizes_ok : sizes_okb sizes_x64 = true.
 Proof. reflexivity. Qed.
+
+(* what was loaded can be saved and loaded again: for the tree being checked
+   (outside the scope class: the reader of scope.rs is not the inverse of its
+   writer) and for the repaired reader on inputs that fit in memory *)
+Lemma from_names_sub : forall s, mem s from_names = true -> mem s as_names = true.
+Proof.
+  intros s H. apply mem_In in H. pose proof from_names_subset as F. rewrite forallb_forall in F. apply F. exact H.
+Qed.
+
+Theorem resave_reload_except_known : forall sz, sizes_okb sz = true -> forall bs m r rest,
+  bytes_ok bs -> run (de_vars (cfg_today sz)) bs = Ok (m, r) ->
+  forallb (fun kv => negb (has_scope_value (snd kv))) m = true ->
+  run (de_vars (cfg_today sz)) (ser_vars m ++ rest) = Ok (m, rest).
+Proof.
+  intros sz Hs bs m r rest Hb E Hk.
+  destruct (loaded_wfc (cfg_today sz) as_names eq_refl from_names_sub bs m r Hb E) as [Hw Hn].
+  apply vars_roundtrip_except_known; auto.
+  cbn [cfg_today c_from] in Hn.
+  pose proof (forallb_and _ _ _ _ Hk Hn) as Hb2. revert Hb2. apply forallb_impl.
+  intros [k v] H. cbn [fst snd] in *. apply andb_prop in H. destruct H as [H1 H2].
+  unfold known_C12, known_C12_scope_flag, known_C12_builtin_name. apply negb_true_iff in H1. rewrite H1, H2. reflexivity.
+Qed.
